@@ -657,6 +657,28 @@ func (s *Sim) Run() {
 	}
 }
 
+// RunClients schedules until every client task has finished; system tasks
+// (e.g. the lease restore after an unseal) may still be parked afterwards.
+func (s *Sim) RunClients() {
+	idle := 0
+	for s.Viol == nil && !s.clientsDone() {
+		if s.Steps >= s.MaxSteps {
+			s.Trunc = true
+			return
+		}
+		if s.Step() {
+			idle = 0
+			continue
+		}
+		time.Sleep(10 * time.Millisecond)
+		if idle++; idle > 100000 {
+			s.Stuck = s.describeStuck()
+			s.Trunc = true
+			return
+		}
+	}
+}
+
 // Drain runs system tasks until nothing is parked, advancing the simulated
 // clock by `slice` up to `total` so that queued/lazy work (revocations,
 // restore) gets done. It never injects random faults.
